@@ -15,6 +15,7 @@
 //        joint <name> <body> <class|-> <type 0 free|1 ball|2 slide|3 hinge> ax ay az <k> (<attr> <val>)*k   attr: damp arm stiff lo hi lim ref sref
 //        geom <name> <body> <frame|-> <class|-> px py pz ORI <k> (<attr> <val>)*k     attr: type s0 s1 s2 dens
 //        attach <frame of spec 0> <body of spec 1> <prefix>
+//        rt <edit> ... | presteps <n> | recompile           runtime-edit protocol (see run_setconst): spec 0 = base, spec 2 = edited spec
 //        qvel <v>                                          initial velocity of every dof
 //        sim <nsteps>
 //     ORI: q w x y z | aa x y z angle | eu a b c | xy x0 x1 x2 y0 y1 y2 | z z0 z1 z2
@@ -60,8 +61,102 @@ static const mjsDefault* finddef(Ctx& c, const std::string& n) {
   return c.defs[n];
 }
 
+// constants that mj_setConst derives (and the edited parameters themselves), in a fixed order
+static void append_constants(std::string& r, const mjModel* m) {
+  char buf[64];
+  auto put = [&](double x) { snprintf(buf, sizeof buf, " %a", x); r += buf; };
+  for (int b = 1; b < m->nbody; b++) {
+    put(m->body_mass[b]); put(m->body_subtreemass[b]);
+    for (int k = 0; k < 3; k++) put(m->body_inertia[3 * b + k]);
+    for (int k = 0; k < 2; k++) put(m->body_invweight0[2 * b + k]);
+    for (int k = 0; k < 3; k++) put(m->body_pos[3 * b + k]);
+  }
+  for (int v = 0; v < m->nv; v++) { put(m->dof_M0[v]); put(m->dof_invweight0[v]); put(m->dof_armature[v]); put(m->dof_damping[v]); }
+  for (int q = 0; q < m->nq; q++) { put(m->qpos0[q]); put(m->qpos_spring[q]); }
+  put(m->stat.meaninertia); put(m->stat.meanmass); put(m->stat.meansize); put(m->stat.extent);
+  for (int k = 0; k < 3; k++) put(m->stat.center[k]);
+}
+
+// "editing a real-valued model parameter at runtime and calling mj_setConst matches recompiling the edited spec":
+//   m1 = compile(base); simulate presteps (the data is then away from qpos0); save the state; apply the runtime edits to m1;
+//   mj_setConst(m1, d1);  m2 = compile(edited spec);  both continue from the saved state for nsteps.
+// output: "ok <nconst> A <constants of m1> B <constants of m2> C <constants of m1 after mj_resetData + mj_setConst again>
+//          P <nbody> (<name> pose7 of m1 after the steps, pose7 of m2 after the steps)*"
+static std::string run_setconst(mjSpec* base, mjSpec* edited, const std::vector<Toks>& edits, int presteps, int nsteps, double qvel0) {
+  if (!base || !edited) throw Fail{"recompile needs spec 0 and spec 2"};
+  mjModel* m1 = NULL; mjModel* m2 = NULL;
+  if (MJG_TRY) { m1 = mj_compile(base, NULL); MJG_END; }
+  if (!m1) throw Fail{std::string("compile base: ") + mjs_getError(base)};
+  if (MJG_TRY) { m2 = mj_compile(edited, NULL); MJG_END; }
+  if (!m2) { mj_deleteModel(m1); throw Fail{std::string("compile edited: ") + mjs_getError(edited)}; }
+  if (m1->nq != m2->nq || m1->nv != m2->nv || m1->nbody != m2->nbody) { mj_deleteModel(m1); mj_deleteModel(m2); throw Fail{"edited spec has a different structure"}; }
+  mjData* d1 = mj_makeData(m1); mjData* d2 = mj_makeData(m2);
+  std::string r;
+  bool ok = true;
+  std::string emsg;
+  if (MJG_TRY) {
+    for (int k = 0; k < m1->nv; k++) d1->qvel[k] = qvel0;
+    for (int k = 0; k < presteps; k++) mj_step(m1, d1);
+    std::vector<double> qp(d1->qpos, d1->qpos + m1->nq), qv(d1->qvel, d1->qvel + m1->nv);
+    for (const Toks& e : edits) {
+      const std::string& k = e[0];
+      if (k == "bmass" || k == "bpos") {
+        int b = mj_name2id(m1, mjOBJ_BODY, e[1].c_str());
+        if (b < 0) { emsg = "rt: unknown body " + e[1]; ok = false; break; }
+        if (k == "bmass") { double sc = num(e[2]); m1->body_mass[b] *= sc; for (int j = 0; j < 3; j++) m1->body_inertia[3 * b + j] *= sc; }
+        else for (int j = 0; j < 3; j++) m1->body_pos[3 * b + j] = num(e[2 + j]);
+      } else {
+        int jn = mj_name2id(m1, mjOBJ_JOINT, e[1].c_str());
+        if (jn < 0) { emsg = "rt: unknown joint " + e[1]; ok = false; break; }
+        int dof = m1->jnt_dofadr[jn], nd = m1->jnt_type[jn] == mjJNT_FREE ? 6 : m1->jnt_type[jn] == mjJNT_BALL ? 3 : 1;
+        if (k == "jarm") for (int j = 0; j < nd; j++) m1->dof_armature[dof + j] = num(e[2]);
+        else if (k == "jdamp") for (int j = 0; j < nd; j++) m1->dof_damping[dof + j] = num(e[2]);
+        else if (k == "jsref") m1->qpos_spring[m1->jnt_qposadr[jn]] = num(e[2]);
+        else { emsg = "rt: unknown edit " + k; ok = false; break; }
+      }
+    }
+    if (ok) {
+      mj_setConst(m1, d1);
+      char buf[64];
+      std::string a, b, c;
+      append_constants(a, m1);
+      append_constants(b, m2);
+      // the derived constants must not depend on the state the scratch mjData happened to be in
+      mj_resetData(m1, d1);
+      mj_setConst(m1, d1);
+      append_constants(c, m1);
+      int nconst = 10 * (m1->nbody - 1) + 4 * m1->nv + 2 * m1->nq + 7;
+      snprintf(buf, sizeof buf, "ok %d", nconst);
+      r = buf; r += " A" + a + " B" + b + " C" + c;
+      // continue both models from the saved state
+      mj_resetData(m1, d1); mj_resetData(m2, d2);
+      for (int k = 0; k < m1->nq; k++) { d1->qpos[k] = qp[k]; d2->qpos[k] = qp[k]; }
+      for (int k = 0; k < m1->nv; k++) { d1->qvel[k] = qv[k]; d2->qvel[k] = qv[k]; }
+      for (int k = 0; k < nsteps; k++) { mj_step(m1, d1); mj_step(m2, d2); }
+      mj_forward(m1, d1); mj_forward(m2, d2);
+      snprintf(buf, sizeof buf, " P %d", m1->nbody - 1); r += buf;
+      for (int bb = 1; bb < m1->nbody; bb++) {
+        const char* nm = mj_id2name(m1, mjOBJ_BODY, bb);
+        r += " "; r += (nm && nm[0]) ? nm : "?";
+        for (int k = 0; k < 3; k++) { snprintf(buf, sizeof buf, " %a", d1->xpos[3 * bb + k]); r += buf; }
+        for (int k = 0; k < 4; k++) { snprintf(buf, sizeof buf, " %a", d1->xquat[4 * bb + k]); r += buf; }
+        for (int k = 0; k < 3; k++) { snprintf(buf, sizeof buf, " %a", d2->xpos[3 * bb + k]); r += buf; }
+        for (int k = 0; k < 4; k++) { snprintf(buf, sizeof buf, " %a", d2->xquat[4 * bb + k]); r += buf; }
+      }
+    }
+    MJG_END;
+  } else { ok = false; emsg = std::string("engine error: ") + mjg_last_error; }
+  mj_deleteData(d1); mj_deleteData(d2); mj_deleteModel(m1); mj_deleteModel(m2);
+  if (!ok) throw Fail{emsg};
+  return r;
+}
+
 static void build_and_run(const Toks& t) {
-  Ctx cs[2];
+  Ctx cs[3];
+  cs[2].s = NULL;
+  std::vector<Toks> rtedits;
+  int presteps = 0;
+  bool recompile = false;
   cs[0].s = mj_makeSpec();
   cs[1].s = NULL;
   Ctx* c = &cs[0];
@@ -75,7 +170,7 @@ static void build_and_run(const Toks& t) {
       if (cmd == "spec") {
         need(i + 1 < t.size(), "spec id");
         int id = atoi(t[i + 1].c_str());
-        need(id == 0 || id == 1, "spec id");
+        need(id == 0 || id == 1 || id == 2, "spec id");
         if (!cs[id].s) cs[id].s = mj_makeSpec();
         c = &cs[id];
         i += 2;
@@ -195,6 +290,17 @@ static void build_and_run(const Toks& t) {
         mjsElement* r = mjs_attach(cs[0].frames[t[i + 1]]->element, cs[1].bodies[t[i + 2]]->element, t[i + 3].c_str(), "");
         if (!r) throw Fail{std::string("mjs_attach failed: ") + mjs_getError(cs[0].s)};
         i += 4;
+      } else if (cmd == "rt") {
+        // runtime edit of the compiled model: rt bmass <body> <scale> | rt bpos <body> x y z | rt jarm|jdamp|jsref <joint> <v>
+        need(i + 3 < t.size(), "rt");
+        size_t n = t[i + 1] == "bpos" ? 6 : 4;
+        need(i + n <= t.size(), "rt args");
+        rtedits.push_back(Toks(t.begin() + i + 1, t.begin() + i + n));
+        i += n;
+      } else if (cmd == "presteps") {
+        need(i + 1 < t.size(), "presteps"); presteps = atoi(t[i + 1].c_str()); i += 2;
+      } else if (cmd == "recompile") {
+        recompile = true; i += 1;
       } else if (cmd == "qvel") {
         need(i + 1 < t.size(), "qvel"); qvel0 = num(t[i + 1]); i += 2;
       } else if (cmd == "sim") {
@@ -202,6 +308,12 @@ static void build_and_run(const Toks& t) {
       } else {
         throw Fail{"unknown command " + cmd};
       }
+    }
+    if (recompile) {
+      result = run_setconst(cs[0].s, cs[2].s, rtedits, presteps, nsteps, qvel0);
+      for (int k = 0; k < 3; k++) if (cs[k].s) { mj_deleteSpec(cs[k].s); cs[k].s = NULL; }
+      printf("%s\n", result.c_str());
+      return;
     }
     mjModel* m = NULL;
     if (MJG_TRY) { m = mj_compile(cs[0].s, NULL); MJG_END; }
@@ -259,8 +371,9 @@ static void build_and_run(const Toks& t) {
     result = "err " + f.msg;
     for (char& ch : result) if (ch == '\n' || ch == '\r') ch = ' ';
   }
+  if (cs[2].s) mj_deleteSpec(cs[2].s);
   if (cs[1].s) mj_deleteSpec(cs[1].s);
-  mj_deleteSpec(cs[0].s);
+  if (cs[0].s) mj_deleteSpec(cs[0].s);
   printf("%s\n", result.c_str());
 }
 
